@@ -38,11 +38,11 @@ ASSUMPTIONS = [
 
 def requirements(tier):
     q = tier == 'quick'
-    return {'pairs_compared': 8000 if q else 100000,
-            'pairs_both_ok': 4000 if q else 50000,
-            'pairs_both_fail': 2500 if q else 30000,
-            'shared_collections': 3000 if q else 40000,
-            'shared_class_nodes': 2000 if q else 25000,
+    return {'pairs_compared': 5000 if q else 100000,
+            'pairs_both_ok': 2500 if q else 50000,
+            'pairs_both_fail': 1400 if q else 30000,
+            'shared_collections': 2000 if q else 40000,
+            'shared_class_nodes': 1500 if q else 25000,
             'cycle_loads': 3000 if q else 40000,
             'family_cases': 150}
 
@@ -468,7 +468,7 @@ def dup_seq_items(spec, rng):
 
 def shard(ctx):
     rng = ctx.rng
-    n_models = ctx.budget(9000, 120000)
+    n_models = ctx.budget(6500, 120000)
     for i in range(n_models):
         profile = 'unamb' if rng.random() < 0.6 else 'free'
         st = W.Stream(ctx, profile, mutants=0, soup=0, empties=False,
@@ -478,6 +478,15 @@ def shard(ctx):
             continue
         kp = W.key_pool(spec)
         cn = W.class_names(spec)
+        if 'sabotaging-savorize' in H.model_features(spec):
+            # a savorizer of the model that rewrites a *sub*-node in place
+            # (wrong tag, wrong kind) changes every reference of a shared
+            # node: that is the model author's doing, not yatiml's; such
+            # models take part in the cycle workload only
+            ctx.count('sabotaged_models_cycles_only')
+            if rng.random() < 0.5:
+                run_cycle(ctx, spec, rng.choice(D.CYCLES))
+            continue
         for v, nspec in st.valid_specs(spec, m, 3):
             nspec = dup_seq_items(nspec, rng)
             style = rng.choice(['block', 'flow', 'dq', 'json', 'sq'])
